@@ -223,6 +223,7 @@ class Executor:
         self.havoc_memo = {}
         self._alone = {}
         self.havoc_calls = {}         # oid -> (callee, args)
+        self.havoc_snap = {}          # oid -> argument values at call time
         self.n_checks = 0
         self.solver_s = 0.0
         self.byname = {}
@@ -650,6 +651,10 @@ class Executor:
             return self.funcs[c][0]
         last = c.split("::")[-1]
         cands = [n for n in self.funcs if self.funcs[n][0].kind == "const" and n.split("::")[-1] == last and "promoted" not in n]
+        if len(cands) == 1:
+            return self.funcs[cands[0]][0]
+        last2 = c.split("::")[-2:]
+        cands = [n for n in cands if n.split("::")[-2:] == last2]
         if len(cands) == 1:
             return self.funcs[cands[0]][0]
         return None
@@ -1159,6 +1164,16 @@ class Executor:
                 key = (name, dty, tuple(vkey(a) for a in args))
             except Exception:
                 key = None
+        # the values behind reference arguments AT CALL TIME (locals are overwritten later on the path)
+        snap = []
+        for a in args:
+            if isinstance(a, Ref):
+                try:
+                    snap.append(self._read_key(st, a.key, a.path))
+                    continue
+                except Exception:
+                    pass
+            snap.append(a)
         if key is not None and key in self.havoc_memo:
             v = self.havoc_memo[key]
         else:
@@ -1167,7 +1182,8 @@ class Executor:
                 self.havoc_memo[key] = v
             if isinstance(v, Lazy):
                 self.havoc_calls[v.oid] = (name, args)
-        st.trace.append(("havoc", name, args, v))
+                self.havoc_snap[v.oid] = snap
+        st.trace.append(("havoc", name, args, v, snap))
         return v
 
 
